@@ -91,6 +91,13 @@ func (h *killedHandler) cleanupIfNotRestarting() {
 	h.ctx.EventStream().UnsubscribeAll(h.ctx)
 	h.ctx.system.removeActorContext(h.ctx)
 
+	// 通知事件流：须先于对父节点的通知。父节点收到通知后可能随即完成自身的终止并发布其 ActorKilledEvent，
+	// 若此处尚未发布，订阅者将先看到父节点、后看到子节点的终止事件
+	h.ctx.EventStream().Publish(h.ctx, ves.ActorKilledEvent{
+		ActorRef: h.ctx.ref,
+		Type:     reflect.TypeOf(h.ctx.actor),
+	})
+
 	// 通知所有监听者
 	for _, watcher := range h.ctx.watchers {
 		h.ctx.tell(true, watcher, h.selfKilledMessage)
@@ -100,12 +107,6 @@ func (h *killedHandler) cleanupIfNotRestarting() {
 	if h.ctx.parent != nil {
 		h.ctx.tell(true, h.ctx.parent, h.selfKilledMessage)
 	}
-
-	// 通知事件流
-	h.ctx.EventStream().Publish(h.ctx, ves.ActorKilledEvent{
-		ActorRef: h.ctx.ref,
-		Type:     reflect.TypeOf(h.ctx.actor),
-	})
 
 	// 若终止时邮箱处于挂起状态（例如失败后被监管者停止），其中排队的以及之后通过已缓存邮箱的引用投递的用户消息将永远滞留；
 	// 恢复邮箱使其排空并进入死信
